@@ -154,7 +154,13 @@ pub struct Rec {
     sample_cap: usize,
     fail_cap: usize,
     pub suppressed_failures: u64,
+    /// failures that matched a known finding at record time (id -> count); they never consume the failure cap, so a
+    /// flood of known failures cannot push an unlisted one out of the list
+    pub known_hits: BTreeMap<String, u64>,
 }
+
+/// known findings of the property this process reports for (set by `Run::new`)
+static KNOWN_FOR_RUN: std::sync::OnceLock<Vec<Known>> = std::sync::OnceLock::new();
 
 impl Rec {
     pub fn new() -> Self {
@@ -168,6 +174,7 @@ impl Rec {
             sample_cap: 2,
             fail_cap: std::env::var("VERIF_FAILCAP").ok().and_then(|s| s.parse().ok()).unwrap_or(64),
             suppressed_failures: 0,
+            known_hits: BTreeMap::new(),
         }
     }
     /// n executions of the real code were performed and checked.
@@ -195,6 +202,12 @@ impl Rec {
         }
     }
     pub fn fail(&mut self, desc: Value) {
+        if let Some(ks) = KNOWN_FOR_RUN.get() {
+            if let Some(k) = ks.iter().find(|k| k.matches(&desc)) {
+                *self.known_hits.entry(k.id.clone()).or_insert(0) += 1;
+                return;
+            }
+        }
         if self.failures.len() < self.fail_cap {
             self.failures.push(Failure { desc });
         } else {
@@ -210,6 +223,9 @@ impl Rec {
         self.outcomes.extend(o.outcomes);
         self.failures.extend(o.failures);
         self.suppressed_failures += o.suppressed_failures;
+        for (k, v) in o.known_hits {
+            *self.known_hits.entry(k).or_insert(0) += v;
+        }
         for s in o.samples {
             if self.samples.len() < 6 {
                 self.samples.push(s);
@@ -272,6 +288,7 @@ impl Run {
         // other groups under a memory monitor): everything reported - replay files, evidence part, VIOLATION lines,
         // known-finding lookup - then carries that property's id.
         let report_as = std::env::var("VERIF_AS_PROPERTY").ok().filter(|s| !s.is_empty()).unwrap_or_else(|| args.property.clone());
+        let _ = KNOWN_FOR_RUN.set(load_known_findings(&verif_root(), &report_as));
         if args.replay.is_none() {
             // one replay name space per evidence part: several group binaries may report for the same property
             let part = std::env::var("VERIF_EVIDENCE_PART").ok().filter(|s| !s.is_empty()).map(|s| format!("{s}-")).unwrap_or_default();
@@ -470,6 +487,10 @@ impl Run {
         }
         for fam in &self.families {
             total_fail += fam.rec.suppressed_failures;
+            for (id, n) in &fam.rec.known_hits {
+                *known_hits.entry(id.clone()).or_insert(0) += *n;
+                total_fail += *n;
+            }
             for fl in &fam.rec.failures {
                 total_fail += 1;
                 match known.iter().find(|k| k.matches(&fl.desc)) {
